@@ -25,7 +25,7 @@ ASSUMPTIONS = ["env.X is by definition the published transformed table; tables w
                "(3 + 2*window days) are not 'daily or finer' and are not generated",
                "a configuration with too little data may be refused at construction (counted as config-rejected)"]
 REQUIRED = ["C18:observation", "C18:bounds", "C18:step-date", "C18:quotes", "C18:rate", "C18:full-window", "C18:published-table"]
-REQUIRED_CATS = ["window>1", "stride", "late-fold", "calendar:LSE", "calendar:NYSE", "transformer:None", "transformer:z-score",
+REQUIRED_CATS = ["rate-off-price-dates", "window>1", "stride", "late-fold", "calendar:LSE", "calendar:NYSE", "transformer:None", "transformer:z-score",
                  "transformer:yeo-johnson"]
 TECHNIQUE = "runtime monitoring: observations, quotes and step dates of real episodes compared at every call with the tables the environment was given"
 LEVEL_TEXT = ("Exploration over generated table shapes and options; at every call of every episode the observation, the traded quotes, "
@@ -80,6 +80,12 @@ def case(ctx, i, tier):
         a = dY[r.randint(n // 3, n // 2)]
         folds = {"training-set": [a.to_pydatetime(), dY[-1].to_pydatetime()]}
     rate = pd.Series(rng.uniform(-0.01, 0.04, n), dY, name="rr") if r.random() < 0.5 else None   # negative fixings are valid rates
+    if rate is not None and r.random() < 0.4:
+        # fixings published on their own cadence (every 2nd / 3rd calendar day): many are dated on days
+        # without a price row and must reach the exchange at the next step
+        dR = pd.date_range(dY[0], dY[-1], freq=r.choice(["2D", "3D"]))
+        rate = pd.Series(rng.uniform(-0.01, 0.04, len(dR)), dR, name="rr")
+        ctx.cat("rate-off-price-dates")
     sd = r.choice([0, 1])
     ctx.sample = {"rows_Y": n, "rows_X": len(X), "freq": freq, "x_offset_days": offx, "features": nf, "assets": ny,
                   "window": window, "stride": stride, "transformer": tf, "clip": clip, "spread": SP, "calendar": cal,
@@ -122,8 +128,11 @@ def case(ctx, i, tier):
     k = 0
     last = None
     first = True
+    first_now = None
     while True:
         now = env.now()
+        if first_now is None:
+            first_now = now
         Xp = env.X.loc[:now]
         if first:
             ctx.check("C18:full-window", len(Xp) >= window, rows=len(Xp), window=window, now=now)
@@ -148,7 +157,9 @@ def case(ctx, i, tier):
                 ok &= ctx.check("C18:quotes", lob.bid_price == y - y * SP / 2 and lob.ask_price == y + y * SP / 2,
                                 contract=c.symbol, now=now, book=[lob.bid_price, lob.ask_price], price=y, spread=SP)
         if rate is not None:
-            rr = rate.loc[env.Y.index[0]:now]
+            # fixings dated from the episode's first step on have certainly been delivered (older ones
+            # only if the warm-up replay reaches them, which the property does not promise)
+            rr = rate.loc[first_now:now] if first_now is not None else rate.iloc[0:0]
             if len(rr):
                 ok &= ctx.check("C18:rate", env.exchange[env._broker_fees.interest_rate].mid_price == rr.iloc[-1],
                                 now=now, book=env.exchange[env._broker_fees.interest_rate].mid_price, want=rr.iloc[-1])
